@@ -75,7 +75,7 @@ vlib.standard_check({
                             "statement_histogram": t.get("hist", {})},
     "rule": "programs generated from the seed over the AST of C05/Model.lean (declarations, defaults, assignments to whole signals / slices / bits / "
             "dynamic bits, parts and slices incl. nested selections, Selection forms (All / From / Range / RangeIncl / Slice / Symbol with negative starts and ends), operators, width-less variables from integer literals / zext / oext (UInt and SInt) re-assigned "
-            "wider / narrower / equal literals and each other inside and outside IF / ELSE with copies and comparisons, the alias-cache pattern, "
+            "wider / narrower / equal literals and each other inside and outside IF / ELSE with copies and comparisons, the alias-cache pattern (part vs dynamic slice keys; x.resetNode() + re-initialisation between uses of the same index signals / selections), "
             "ENIF / IF nests (depth 1..4, any order, ELSE branches) around reg() and memory writes whose ENABLE / wrEnable input is observed, IF / ELSE / ELSEIF / two-scope ELSE IF chains that often repeat a condition "
             "signal, nesting to the given depth, locals inside scopes) + 1/40 malformed programs the frontend must reject; each program is executed against the "
             "real frontend (ConditionalScope objects on the C++ stack), simulated for all input valuations (<= 10 input bits, random sample otherwise) before and "
